@@ -282,11 +282,11 @@ def line_text(l, sp):
     elif k == "define":
         body = l.get("form", ".define") + g + l["n"]
     elif k in ("if", "elif"):
-        body = "." + k + g + expr_text(l["e"], sp)
+        body = l.get("pfx", ".") + k + g + expr_text(l["e"], sp)
     elif k in ("ifdef", "ifndef"):
-        body = "." + k + g + l["n"]
+        body = l.get("pfx", ".") + k + g + l["n"]
     elif k in ("else", "endif", "exit"):
-        body = "." + k
+        body = (l.get("pfx", ".") if k != "exit" else ".") + k
     elif k == "macro":
         body = ".macro" + g + l.get("spn", l["n"])
     elif k == "endm":
@@ -307,12 +307,13 @@ def line_text(l, sp):
     if sp.comment:
         sp.n += 1
         text = COMMENT_TEXTS[(sp.n + l["ln"]) % len(COMMENT_TEXTS)]
+        glue = "" if (sp.ws + sp.blank_before + len(sp.radix)) % 2 == 0 and s else " "    # half of the descriptors: no blank before the comment
         if sp.comment == ";":
-            s += " ; " + text
+            s += glue + "; " + text
         elif sp.comment == "//":
-            s += " // " + text
+            s += glue + "// " + text
         elif sp.comment == "/*":
-            s += " /* " + text.replace("*/", "* /") + " */"
+            s += glue + "/* " + text.replace("*/", "* /") + " */"
     return s
 
 
@@ -348,7 +349,7 @@ KEEP = {"k", "ln", "lab", "mn", "ops", "w", "elems", "e", "s", "n", "r", "args",
 def clean(x):
     """The abstract line as the specification sees it (renderer-only fields dropped)."""
     if isinstance(x, dict):
-        return {k: clean(v) for k, v in x.items() if k not in ("text", "spn", "form", "sp")}
+        return {k: clean(v) for k, v in x.items() if k not in ("text", "spn", "form", "sp", "pfx")}
     if isinstance(x, list):
         return [clean(v) for v in x]
     return x
